@@ -34,6 +34,7 @@ Proof. unfold prepared_obj. destruct (o_unprot o); reflexivity. Qed.
 Lemma decode_frame k o data : snd (decode_step k o data) <> ROk -> oauthd (fst (decode_step k o data)) = oauthd o.
 Proof.
   unfold decode_step. destruct (unmarshal_wire k data) as [w| |]; cbn [fst snd]; try reflexivity.
+  destruct (if has_recips k then recips_decode (w_extra w) else Ok (o_recips o)) as [rs| |]; cbn [fst snd]; try reflexivity.
   destruct (headers_from_bytes (w_prot w)); cbn [fst snd]; try reflexivity. intro H; exfalso; apply H; reflexivity.
 Qed.
 
@@ -45,43 +46,30 @@ Proof.
   unfold produce_step. destruct (prepare_protected (o_prot o) (pr_key k p)) as [prot'| |]; cbn [fst snd]; try reflexivity.
   set (o1 := prepared_obj o (pr_key k p) prot').
   assert (H1 : oauthd o1 = oauthd o) by apply oauthd_prepared.
-  destruct k.
-  - (* Sign1 *) destruct (headers_bytes prot'); cbn [fst snd]; [|intros _; exact H1].
-    destruct (structure KSign1 _ _ _ _); cbn [fst snd]; try (intros _; exact H1).
-    destruct (sg_sign (pr_sig p) _); cbn [fst snd]; try (intros _; exact H1). intro H; exfalso; apply H; reflexivity.
-  - destruct (headers_bytes prot'); cbn [fst snd]; [|intros _; exact H1].
-    destruct (structure KMac0 _ _ _ _); cbn [fst snd]; try (intros _; exact H1).
-    destruct (mc_create (pr_mac p) _); cbn [fst snd]; try (intros _; exact H1). intro H; exfalso; apply H; reflexivity.
-  - destruct (headers_bytes prot'); cbn [fst snd]; [|intros _; exact H1].
-    destruct (structure KMac _ _ _ _); cbn [fst snd]; try (intros _; exact H1).
-    destruct (mc_create (pr_mac p) _); cbn [fst snd]; try (intros _; exact H1). intro H; exfalso; apply H; reflexivity.
-  - (* Enc0 *)
-    destruct (choose_nonce _ _ _ _) as [[nonce u2]| |]; cbn [fst snd]; try (intros _; exact H1).
-    match goal with |- context [match headers_bytes prot' with _ => _ end] => idtac end.
+  destruct (is_enc k).
+  - destruct (choose_nonce _ _ _ _) as [[nonce u2]| |]; cbn [fst snd]; try (intros _; exact H1).
     set (o2 := match derive_nonce _ _ _ with Ok iv => if Nat.eqb (length iv) 0 then upd_unprot o1 u2 else o1 | _ => o1 end).
     assert (H2 : oauthd o2 = oauthd o).
     { unfold o2. destruct (derive_nonce _ _ _) as [iv| |]; try exact H1. destruct (Nat.eqb (length iv) 0); [rewrite oauthd_upd_unprot|]; exact H1. }
     destruct (headers_bytes prot'); cbn [fst snd]; [|intros _; exact H2].
-    destruct (structure KEnc0 _ _ _ _); cbn [fst snd]; try (intros _; exact H2).
+    destruct (structure k _ _ _ _); cbn [fst snd]; try (intros _; exact H2).
     destruct (en_encrypt (pr_enc p) _ _ _); cbn [fst snd]; try (intros _; exact H2). intro H; exfalso; apply H; reflexivity.
   - destruct (headers_bytes prot'); cbn [fst snd]; [|intros _; exact H1].
-    destruct (structure KEnc _ _ _ _); cbn [fst snd]; try (intros _; exact H1).
-    destruct (mc_create (pr_mac p) _); cbn [fst snd]; try (intros _; exact H1). intro H; exfalso; apply H; reflexivity.
-  - destruct (headers_bytes prot'); cbn [fst snd]; [|intros _; exact H1].
-    destruct (structure KSign _ _ _ _); cbn [fst snd]; try (intros _; exact H1).
-    destruct (mc_create (pr_mac p) _); cbn [fst snd]; try (intros _; exact H1). intro H; exfalso; apply H; reflexivity.
+    destruct (structure k _ _ _ _); cbn [fst snd]; try (intros _; exact H1).
+    destruct (match k with KSign1 => sg_sign (pr_sig p) _ | _ => mc_create (pr_mac p) _ end); cbn [fst snd]; try (intros _; exact H1).
+    intro H; exfalso; apply H; reflexivity.
 Qed.
 
 Lemma consume_frame k o p ext : oauthd (fst (consume_step k o p ext)) = oauthd o.
 Proof.
   unfold consume_step. destruct (o_mm o) as [w|] eqn:Hm; [|reflexivity].
   destruct (w_auth w); [|reflexivity]. destruct (negb _); [reflexivity|].
-  destruct k;
-    try (destruct (structure _ _ _ _ _); cbn [fst]; try reflexivity;
-         match goal with |- context [if ?b then _ else _] => destruct b end; reflexivity).
-  destruct (structure _ _ _ _ _); cbn [fst]; try reflexivity.
-  destruct (derive_nonce _ _ _); cbn [fst]; try reflexivity.
-  destruct (en_decrypt _ _ _ _) as [pt| |]; cbn [fst]; try reflexivity. destruct pt; reflexivity.
+  destruct (is_enc k).
+  - destruct (structure _ _ _ _ _); cbn [fst]; try reflexivity.
+    destruct (derive_nonce _ _ _); cbn [fst]; try reflexivity.
+    destruct (en_decrypt _ _ _ _) as [pt| |]; cbn [fst]; try reflexivity. destruct pt; reflexivity.
+  - destruct (structure _ _ _ _ _); cbn [fst]; try reflexivity.
+    match goal with |- context [if ?b then _ else _] => destruct b end; reflexivity.
 Qed.
 
 (* ---------------------------------------------------------------- frame *)
@@ -99,41 +87,43 @@ Proof.
   - cbn [fst]. destruct (o_unprot o); [apply oauthd_upd_unprot|reflexivity].
   - reflexivity.
   - reflexivity.
+  - reflexivity.
 Qed.
 
 (* what MarshalCBOR emits is a function of the wire struct alone; its authenticated members are those of oauthd *)
+Definition marshal_of (k : kind) (w : wire) (rs : list recip) : option bytes :=
+  if has_recips k then marshal_multi k w rs else marshal_simple k w.
+
 Theorem marshal_reads_mm k o b :
-  marshal_out k o = RBytes b -> exists w, o_mm o = Some w /\ marshal_simple k w = Some b /\ w_auth w <> None.
+  marshal_out k o = RBytes b -> exists w, o_mm o = Some w /\ marshal_of k w (o_recips o) = Some b /\ w_auth w <> None.
 Proof.
-  unfold marshal_out. destruct (o_mm o) as [w|]; [|discriminate]. destruct (w_auth w) eqn:Ha; [|discriminate].
-  destruct (marshal_simple k w) eqn:Hm; [|discriminate]. intro H; inversion H; subst. exists w. repeat split; congruence.
+  unfold marshal_out, marshal_of. destruct (o_mm o) as [w|]; [|discriminate]. destruct (w_auth w) eqn:Ha; [|discriminate].
+  destruct (if has_recips k then marshal_multi k w (o_recips o) else marshal_simple k w) eqn:Hm; [|discriminate].
+  intro H; inversion H; subst. exists w. repeat split; congruence.
 Qed.
 
 (* ---------------------------------------------------------------- what a successful produce installs *)
-Definition single (k : kind) : bool := match k with KSign1 | KMac0 | KEnc0 => true | _ => false end.
+Definition single (k : kind) : bool := match k with KSign => false | _ => true end.    (* the five single-key kinds *)
 
 Theorem produce_installs k o p ext draw o' :
-  single k = true -> produce_step k o p ext draw = (o', ROk) ->
+  produce_step k o p ext draw = (o', ROk) ->
   exists prot' pb w,
     prepare_protected (o_prot o) (pr_key k p) = Ok prot' /\ headers_bytes prot' = Some pb
     /\ o_mm o' = Some w /\ w_prot w = Some pb /\ o_prot o' = Some prot' /\ w_auth w <> None.
 Proof.
-  intros Hk. unfold produce_step. destruct (prepare_protected (o_prot o) (pr_key k p)) as [prot'| |] eqn:Hp; try discriminate.
-  destruct k; try discriminate Hk.
-  - destruct (headers_bytes prot') as [pb|] eqn:Hb; [|discriminate]. destruct (structure _ _ _ _ _); try discriminate.
-    destruct (sg_sign _ _); try discriminate. intro H; inversion H; subst.
-    exists prot', pb. eexists. repeat split; try reflexivity; try discriminate; try exact Hb.
-    cbn. unfold prepared_obj. destruct (o_unprot o); reflexivity.
-  - destruct (headers_bytes prot') as [pb|] eqn:Hb; [|discriminate]. destruct (structure _ _ _ _ _); try discriminate.
-    destruct (mc_create _ _); try discriminate. intro H; inversion H; subst.
-    exists prot', pb. eexists. repeat split; try reflexivity; try discriminate; try exact Hb.
-    cbn. unfold prepared_obj. destruct (o_unprot o); reflexivity.
+  unfold produce_step. destruct (prepare_protected (o_prot o) (pr_key k p)) as [prot'| |] eqn:Hp; try discriminate.
+  assert (Pp : forall key, o_prot (prepared_obj o key prot') = Some prot') by (intro key; unfold prepared_obj; destruct (o_unprot o); reflexivity).
+  destruct (is_enc k).
   - destruct (choose_nonce _ _ _ _) as [[nonce u2]| |]; try discriminate.
     destruct (headers_bytes prot') as [pb|] eqn:Hb; [|discriminate]. destruct (structure _ _ _ _ _); try discriminate.
     destruct (en_encrypt _ _ _ _); try discriminate. intro H; inversion H; subst.
     exists prot', pb. eexists. repeat split; try reflexivity; try discriminate; try exact Hb.
-    cbn. destruct (derive_nonce _ _ _) as [iv| |]; try (unfold prepared_obj; destruct (o_unprot o); reflexivity).
-    destruct (Nat.eqb (length iv) 0); unfold prepared_obj; destruct (o_unprot o); reflexivity.
+    cbn [install o_prot]. destruct (derive_nonce _ _ _) as [iv| |]; try apply Pp.
+    destruct (Nat.eqb (length iv) 0); [cbn [upd_unprot o_prot]|]; apply Pp.
+  - destruct (headers_bytes prot') as [pb|] eqn:Hb; [|discriminate]. destruct (structure _ _ _ _ _); try discriminate.
+    destruct (match k with KSign1 => sg_sign (pr_sig p) _ | _ => mc_create (pr_mac p) _ end); try discriminate.
+    intro H; inversion H; subst.
+    exists prot', pb. eexists. repeat split; try reflexivity; try discriminate; try exact Hb. cbn [install o_prot]. apply Pp.
 Qed.
 
 (* the gate of the key that produced (MsgRoundTripFull.prepared_passes_gate): a message never leaves the object naming
@@ -179,6 +169,7 @@ Qed.
 Lemma decode_ok_installs k o data o' : decode_step k o data = (o', ROk) -> exists w, unmarshal_wire k data = Ok w /\ o_mm o' = Some w.
 Proof.
   unfold decode_step. destruct (unmarshal_wire k data) as [w| |]; try discriminate.
+  destruct (if has_recips k then recips_decode (w_extra w) else Ok (o_recips o)) as [rs| |]; try discriminate.
   destruct (headers_from_bytes (w_prot w)); try discriminate. intro H; inversion H; subst. exists w. split; reflexivity.
 Qed.
 
@@ -195,7 +186,7 @@ Lemma produce_origin k o g p ext draw o' r : single k = true -> alg_in_range (pr
 Proof.
   intros Hk Wf D H. pose proof (produce_frame k o p ext draw) as F. rewrite D in F. cbn [fst snd] in F.
   destruct r; try (eapply origin_ok_frame; [apply F; discriminate|exact H]).
-  destruct (produce_installs _ _ _ _ _ _ Hk D) as (prot' & pb & w & P & Hb & M & Wp & _ & Au).
+  destruct (produce_installs _ _ _ _ _ _ D) as (prot' & pb & w & P & Hb & M & Wp & _ & Au).
   exists prot', pb, w. repeat split; try assumption. eapply prepared_passes_gate; [exact Wf|eassumption].
 Qed.
 
@@ -216,6 +207,7 @@ Proof.
   - cbn [step fst snd track]. destruct (o_unprot o); [eapply origin_ok_frame; [apply oauthd_upd_unprot|exact H]|exact H].
   - cbn [step fst snd track]. eapply origin_ok_frame; [apply oauthd_new_unprot|exact H].
   - cbn [step fst snd track]. eapply origin_ok_frame; [apply oauthd_with_payload|exact H].
+  - cbn [step fst snd track]. exact H.
 Qed.
 
 Theorem history_origin k : single k = true -> forall ops o g, Forall (op_wf k) ops -> origin_ok k o g -> origin_ok k (final k o ops) (origin_after k o g ops).
@@ -232,7 +224,7 @@ Proof. intros Hk W. apply history_origin; [exact Hk|exact W|reflexivity]. Qed.
    bucket, an algorithm that passes the gate of the key of that call (the key's own algorithm when it names one) *)
 Theorem history_marshal_names_key_alg k ops key b :
   single k = true -> Forall (op_wf k) ops -> origin_after k fresh FromNothing ops = FromProduce key -> marshal_out k (final k fresh ops) = RBytes b ->
-  exists m pb w, marshal_simple k w = Some b /\ w_prot w = Some pb /\ headers_bytes m = Some pb /\ alg_gate m (key_alg key) = true.
+  exists m pb w, marshal_of k w (o_recips (final k fresh ops)) = Some b /\ w_prot w = Some pb /\ headers_bytes m = Some pb /\ alg_gate m (key_alg key) = true.
 Proof.
   intros Hk W Ho Hm. pose proof (history_origin_fresh k ops Hk W) as H. rewrite Ho in H. destruct H as (m & pb & w & M & P & Hb & G & _).
   destruct (marshal_reads_mm _ _ _ Hm) as (w' & M' & S & _). rewrite M in M'. inversion M'; subst. exists m, pb, w'. repeat split; assumption.
@@ -243,13 +235,12 @@ Theorem consume_keeps_marshal k o p ext : marshal_out k (fst (consume_step k o p
 Proof.
   unfold consume_step. destruct (o_mm o) as [w|] eqn:Hm; [|reflexivity].
   destruct (w_auth w) eqn:Ha; [|reflexivity]. destruct (negb _); [reflexivity|].
-  destruct k;
-    try (destruct (structure _ _ _ _ _); cbn [fst]; try reflexivity;
-         match goal with |- context [if ?b then _ else _] => destruct b end; reflexivity).
-  destruct (structure _ _ _ _ _); cbn [fst]; try reflexivity.
-  destruct (derive_nonce _ _ _); cbn [fst]; try reflexivity.
-  destruct (en_decrypt _ _ _ _) as [pt| |]; cbn [fst]; try reflexivity. destruct pt; [reflexivity|].
-  unfold marshal_out, with_payload; cbn [o_mm]. reflexivity.
+  destruct (is_enc k).
+  - destruct (structure _ _ _ _ _); cbn [fst]; try reflexivity.
+    destruct (derive_nonce _ _ _); cbn [fst]; try reflexivity.
+    destruct (en_decrypt _ _ _ _) as [pt| |]; cbn [fst]; try reflexivity. destruct pt; reflexivity.
+  - destruct (structure _ _ _ _ _); cbn [fst]; try reflexivity.
+    match goal with |- context [if ?b then _ else _] => destruct b end; reflexivity.
 Qed.
 
 (* ---------------------------------------------------------------- refinement to the functional model of Msg.v *)
@@ -258,45 +249,60 @@ Definition prod_out (r : res bytes) : out := match r with Ok b => RBytes b | Err
 Definition produce_then_marshal (k : kind) (o : obj) (p : prims) (ext : option bytes) (draw : bytes) : out :=
   let '(o', r) := produce_step k o p ext draw in match r with ROk => marshal_out k o' | _ => r end.
 
-Definition functional_produce (k : kind) (p : prims) (prot unprot : option cosemap) (payload ext : option bytes) (draw : bytes) : res bytes :=
+Definition functional_produce (k : kind) (p : prims) (prot unprot : option cosemap) (payload ext : option bytes) (draw : bytes) (rs : list recip) : res bytes :=
   match k with
   | KSign1 => sign1_produce (pr_sig p) prot unprot payload ext
   | KMac0 => mac0_produce (pr_mac p) prot unprot payload ext
-  | _ => enc0_produce (pr_enc p) prot unprot payload ext draw
+  | KMac => mac_produce (pr_mac p) prot unprot payload ext rs
+  | KEnc0 => enc0_produce (pr_enc p) prot unprot payload ext draw
+  | _ => enc_produce (pr_enc p) prot unprot payload ext draw rs
   end.
 
 Lemma prepared_unprot o key prot' : o_unprot (prepared_obj o key prot') = Some (prepare_unprotected (o_unprot o) key).
 Proof. unfold prepared_obj. destruct (o_unprot o) eqn:E; cbn [with_prot new_unprot o_unprot prepare_unprotected]; [exact E|reflexivity]. Qed.
-Lemma prepared_payload o key prot' : o_payload (prepared_obj o key prot') = o_payload o.
+Lemma prepared_recips o key prot' : o_recips (prepared_obj o key prot') = o_recips o.
 Proof. unfold prepared_obj. destruct (o_unprot o); reflexivity. Qed.
 
 Lemma marshal_install k o w sig : w_auth w = Some sig ->
-  marshal_out k (install o w) = match marshal_simple k w with Some b => RBytes b | None => RErr end.
-Proof. intro H. unfold marshal_out, install; cbn [o_mm]. rewrite H. reflexivity. Qed.
+  marshal_out k (install o w) = match marshal_of k w (o_recips o) with Some b => RBytes b | None => RErr end.
+Proof. intro H. unfold marshal_out, marshal_of, install; cbn [o_mm o_recips]. rewrite H. reflexivity. Qed.
 
 (* on ANY state of the object: WithSign / Compute followed by MarshalCBOR is the functional produce on the exported fields *)
 Theorem produce_refines_sign1 o p ext draw :
   produce_then_marshal KSign1 o p ext draw = prod_out (sign1_produce (pr_sig p) (o_prot o) (o_unprot o) (o_payload o) ext).
 Proof.
-  unfold produce_then_marshal, produce_step, sign1_produce. cbn [pr_key].
+  unfold produce_then_marshal, produce_step, sign1_produce. cbn [pr_key is_enc].
   destruct (prepare_protected (o_prot o) (sg_key (pr_sig p))) as [prot'| |]; cbn [bind prod_out]; try reflexivity.
   destruct (headers_bytes prot') as [pb|]; [|reflexivity].
   destruct (structure KSign1 (Some pb) None ext (o_payload o)) as [tbs| |]; cbn [bind prod_out]; try reflexivity.
   destruct (sg_sign (pr_sig p) tbs) as [sig| |]; cbn [bind prod_out res_out]; try reflexivity.
-  rewrite (marshal_install _ _ _ sig) by reflexivity. rewrite prepared_unprot.
+  rewrite (marshal_install _ _ _ sig) by reflexivity. unfold marshal_of; cbn [has_recips]. rewrite prepared_unprot.
   destruct (marshal_simple KSign1 _); reflexivity.
 Qed.
 
 Theorem produce_refines_mac0 o p ext draw :
   produce_then_marshal KMac0 o p ext draw = prod_out (mac0_produce (pr_mac p) (o_prot o) (o_unprot o) (o_payload o) ext).
 Proof.
-  unfold produce_then_marshal, produce_step, mac0_produce. cbn [pr_key].
+  unfold produce_then_marshal, produce_step, mac0_produce. cbn [pr_key is_enc].
   destruct (prepare_protected (o_prot o) (mc_key (pr_mac p))) as [prot'| |]; cbn [bind prod_out]; try reflexivity.
   destruct (headers_bytes prot') as [pb|]; [|reflexivity].
   destruct (structure KMac0 (Some pb) None ext (o_payload o)) as [tbs| |]; cbn [bind prod_out]; try reflexivity.
   destruct (mc_create (pr_mac p) tbs) as [sig| |]; cbn [bind prod_out res_out]; try reflexivity.
-  rewrite (marshal_install _ _ _ sig) by reflexivity. rewrite prepared_unprot.
+  rewrite (marshal_install _ _ _ sig) by reflexivity. unfold marshal_of; cbn [has_recips]. rewrite prepared_unprot.
   destruct (marshal_simple KMac0 _); reflexivity.
+Qed.
+
+Theorem produce_refines_mac o p ext draw :
+  produce_then_marshal KMac o p ext draw = prod_out (mac_produce (pr_mac p) (o_prot o) (o_unprot o) (o_payload o) ext (o_recips o)).
+Proof.
+  unfold produce_then_marshal, produce_step, mac_produce. cbn [pr_key is_enc].
+  destruct (prepare_protected (o_prot o) (mc_key (pr_mac p))) as [prot'| |]; cbn [bind prod_out]; try reflexivity.
+  destruct (headers_bytes prot') as [pb|]; [|reflexivity].
+  destruct (structure KMac (Some pb) None ext (o_payload o)) as [tbs| |]; cbn [bind prod_out]; try reflexivity.
+  destruct (mc_create (pr_mac p) tbs) as [sig| |]; cbn [bind prod_out res_out]; try reflexivity.
+  rewrite (marshal_install _ _ _ sig) by reflexivity. unfold marshal_of, marshal_multi; cbn [has_recips w_unprot w_prot w_payload w_auth].
+  rewrite prepared_unprot, prepared_recips. cbn [enc_headers_field].
+  destruct (enc_cosemap _); [|reflexivity]. destruct (enc_recips (o_recips o)); reflexivity.
 Qed.
 
 Lemma choose_nonce_cases u key n draw nonce u2 : choose_nonce u key n draw = Ok (nonce, u2) ->
@@ -309,7 +315,7 @@ Qed.
 Theorem produce_refines_enc0 o p ext draw :
   produce_then_marshal KEnc0 o p ext draw = prod_out (enc0_produce (pr_enc p) (o_prot o) (o_unprot o) (o_payload o) ext draw).
 Proof.
-  unfold produce_then_marshal, produce_step, enc0_produce. cbn [pr_key].
+  unfold produce_then_marshal, produce_step, enc0_produce. cbn [pr_key is_enc].
   destruct (prepare_protected (o_prot o) (en_key (pr_enc p))) as [prot'| |]; cbn [bind prod_out]; try reflexivity.
   rewrite prepared_unprot. cbn [omap].
   destruct (choose_nonce (prepare_unprotected (o_unprot o) (en_key (pr_enc p))) (en_key (pr_enc p)) (en_nonce (pr_enc p)) draw) as [[nonce u2]| |] eqn:C;
@@ -322,15 +328,39 @@ Proof.
   destruct (headers_bytes prot') as [pb|]; [|reflexivity].
   destruct (structure KEnc0 (Some pb) None ext None) as [aad| |]; cbn [bind prod_out res_out]; try reflexivity.
   destruct (en_encrypt (pr_enc p) nonce _ aad) as [ct| |]; cbn [bind prod_out res_out]; try reflexivity.
-  rewrite (marshal_install _ _ _ ct) by reflexivity. rewrite Hu.
+  rewrite (marshal_install _ _ _ ct) by reflexivity. unfold marshal_of; cbn [has_recips]. rewrite Hu.
   destruct (marshal_simple KEnc0 _); reflexivity.
 Qed.
 
+Theorem produce_refines_enc o p ext draw :
+  produce_then_marshal KEnc o p ext draw = prod_out (enc_produce (pr_enc p) (o_prot o) (o_unprot o) (o_payload o) ext draw (o_recips o)).
+Proof.
+  unfold produce_then_marshal, produce_step, enc_produce. cbn [pr_key is_enc].
+  destruct (prepare_protected (o_prot o) (en_key (pr_enc p))) as [prot'| |]; cbn [bind prod_out]; try reflexivity.
+  rewrite prepared_unprot. cbn [omap].
+  destruct (choose_nonce (prepare_unprotected (o_unprot o) (en_key (pr_enc p))) (en_key (pr_enc p)) (en_nonce (pr_enc p)) draw) as [[nonce u2]| |] eqn:C;
+    cbn [bind prod_out]; try reflexivity.
+  destruct (choose_nonce_cases _ _ _ _ _ _ C) as (iv & D & U2). rewrite D.
+  set (o1 := prepared_obj o (en_key (pr_enc p)) prot').
+  set (o2 := if Nat.eqb (length iv) 0 then upd_unprot o1 u2 else o1).
+  assert (Hu : o_unprot o2 = Some u2).
+  { unfold o2. destruct (Nat.eqb (length iv) 0); [reflexivity|]. unfold o1. rewrite prepared_unprot. rewrite U2. reflexivity. }
+  assert (Hr : o_recips o2 = o_recips o).
+  { unfold o2. destruct (Nat.eqb (length iv) 0); [cbn [upd_unprot o_recips]|]; unfold o1; apply prepared_recips. }
+  destruct (headers_bytes prot') as [pb|]; [|reflexivity].
+  destruct (structure KEnc (Some pb) None ext None) as [aad| |]; cbn [bind prod_out res_out]; try reflexivity.
+  destruct (en_encrypt (pr_enc p) nonce _ aad) as [ct| |]; cbn [bind prod_out res_out]; try reflexivity.
+  rewrite (marshal_install _ _ _ ct) by reflexivity. unfold marshal_of, marshal_multi; cbn [has_recips w_unprot w_prot w_payload w_auth].
+  rewrite Hu, Hr. cbn [enc_headers_field].
+  destruct (enc_cosemap u2); [|reflexivity]. destruct (enc_recips (o_recips o)); reflexivity.
+Qed.
+
 Theorem produce_refines k o p ext draw : single k = true ->
-  produce_then_marshal k o p ext draw = prod_out (functional_produce k p (o_prot o) (o_unprot o) (o_payload o) ext draw).
+  produce_then_marshal k o p ext draw = prod_out (functional_produce k p (o_prot o) (o_unprot o) (o_payload o) ext draw (o_recips o)).
 Proof.
   destruct k; try discriminate; intros _; cbn [functional_produce].
-  - apply produce_refines_sign1. - apply produce_refines_mac0. - apply produce_refines_enc0.
+  - apply produce_refines_sign1. - apply produce_refines_mac0. - apply produce_refines_mac.
+  - apply produce_refines_enc0. - apply produce_refines_enc.
 Qed.
 
 (* on a fresh object: UnmarshalCBOR followed by Verify / Decrypt is the functional consume; the exported fields
@@ -340,52 +370,73 @@ Definition decode_then_consume (k : kind) (p : prims) (data : bytes) (ext : opti
 
 Definition view_out (r : res view) (x : obj * out) : Prop :=
   match r with
-  | Ok v => snd x = ROk /\ snap_of (fst x) = (Some (v_prot v), v_unprot v, v_payload v)
+  | Ok v => snd x = ROk /\ snap_of (fst x) = (Some (v_prot v), v_unprot v, v_payload v, [])
+  | Err => snd x = RErr
+  | Panic => snd x = RPanic
+  end.
+Definition view_out_r (r : res (view * list recip)) (x : obj * out) : Prop :=
+  match r with
+  | Ok (v, rs) => snd x = ROk /\ snap_of (fst x) = (Some (v_prot v), v_unprot v, v_payload v, rs)
   | Err => snd x = RErr
   | Panic => snd x = RPanic
   end.
 
+Lemma payload_ok_false b : payload_ok false b = Ok (match b with Some ((_ :: _) as x) => Some x | _ => None end).
+Proof. unfold payload_ok. destruct b as [[|c r]|]; reflexivity. Qed.
+
 Theorem consume_refines_sign1 p data ext :
   view_out (sign1_consume false (pr_sig p) data ext) (decode_then_consume KSign1 p data ext).
 Proof.
-  unfold sign1_consume, decode_then_consume, decode_step, decoded_view.
+  unfold sign1_consume, decode_then_consume, decode_step, decoded_view. cbn [has_recips is_enc].
   destruct (unmarshal_wire KSign1 data) as [w| |]; cbn [bind view_out snd]; try reflexivity.
   destruct (headers_from_bytes (w_prot w)) as [prot| |]; cbn [bind view_out snd]; try reflexivity.
-  assert (P : payload_ok false (w_payload w) = Ok (match w_payload w with Some ((_ :: _) as x) => Some x | _ => None end)).
-  { unfold payload_ok. destruct (w_payload w) as [[|b r]|]; reflexivity. }
-  rewrite P. cbn [bind v_prot v_unprot v_payload].
-  unfold consume_step. cbn [o_mm o_prot omap pr_key].
+  rewrite payload_ok_false. cbn [bind v_prot v_unprot v_payload].
+  unfold consume_step. cbn [o_mm o_prot omap pr_key is_enc].
   destruct (w_auth w) as [sig|]; cbn [view_out snd]; [|reflexivity].
   destruct (consume_gate prot (sg_key (pr_sig p))); cbn [negb view_out snd]; [|reflexivity].
   destruct (structure KSign1 (w_prot w) None ext (w_payload w)) as [tbs| |]; cbn [bind view_out snd res_out]; try reflexivity.
   destruct (sg_verify (pr_sig p) tbs sig); cbn [view_out fst snd]; [|reflexivity].
-  split; [reflexivity|]. unfold snap_of; cbn [o_prot o_unprot o_payload fresh]. reflexivity.
+  split; [reflexivity|]. unfold snap_of; cbn [o_prot o_unprot o_payload o_recips fresh]. reflexivity.
 Qed.
 
 Theorem consume_refines_mac0 p data ext :
   view_out (mac0_consume false (pr_mac p) data ext) (decode_then_consume KMac0 p data ext).
 Proof.
-  unfold mac0_consume, decode_then_consume, decode_step, decoded_view.
+  unfold mac0_consume, decode_then_consume, decode_step, decoded_view. cbn [has_recips is_enc].
   destruct (unmarshal_wire KMac0 data) as [w| |]; cbn [bind view_out snd]; try reflexivity.
   destruct (headers_from_bytes (w_prot w)) as [prot| |]; cbn [bind view_out snd]; try reflexivity.
-  assert (P : payload_ok false (w_payload w) = Ok (match w_payload w with Some ((_ :: _) as x) => Some x | _ => None end)).
-  { unfold payload_ok. destruct (w_payload w) as [[|b r]|]; reflexivity. }
-  rewrite P. cbn [bind v_prot v_unprot v_payload].
-  unfold consume_step. cbn [o_mm o_prot omap pr_key].
+  rewrite payload_ok_false. cbn [bind v_prot v_unprot v_payload].
+  unfold consume_step. cbn [o_mm o_prot omap pr_key is_enc].
   destruct (w_auth w) as [sig|]; cbn [view_out snd]; [|reflexivity].
   destruct (consume_gate prot (mc_key (pr_mac p))); cbn [negb view_out snd]; [|reflexivity].
   destruct (structure KMac0 (w_prot w) None ext (w_payload w)) as [tbs| |]; cbn [bind view_out snd res_out]; try reflexivity.
   destruct (mc_verify (pr_mac p) tbs sig); cbn [view_out fst snd]; [|reflexivity].
-  split; [reflexivity|]. unfold snap_of; cbn [o_prot o_unprot o_payload fresh]. reflexivity.
+  split; [reflexivity|]. unfold snap_of; cbn [o_prot o_unprot o_payload o_recips fresh]. reflexivity.
+Qed.
+
+Theorem consume_refines_mac p data ext :
+  view_out_r (mac_consume false (pr_mac p) data ext) (decode_then_consume KMac p data ext).
+Proof.
+  unfold mac_consume, decode_then_consume, decode_step, decoded_view. cbn [has_recips is_enc].
+  destruct (unmarshal_wire KMac data) as [w| |]; cbn [bind view_out_r snd]; try reflexivity.
+  destruct (recips_decode (w_extra w)) as [rs| |]; cbn [bind view_out_r snd]; try reflexivity.
+  destruct (headers_from_bytes (w_prot w)) as [prot| |]; cbn [bind view_out_r snd]; try reflexivity.
+  rewrite payload_ok_false. cbn [bind v_prot v_unprot v_payload].
+  unfold consume_step. cbn [o_mm o_prot omap pr_key is_enc].
+  destruct (w_auth w) as [sig|]; cbn [view_out_r snd]; [|reflexivity].
+  destruct (consume_gate prot (mc_key (pr_mac p))); cbn [negb view_out_r snd]; [|reflexivity].
+  destruct (structure KMac (w_prot w) None ext (w_payload w)) as [tbs| |]; cbn [bind view_out_r snd res_out]; try reflexivity.
+  destruct (mc_verify (pr_mac p) tbs sig); cbn [view_out_r fst snd]; [|reflexivity].
+  split; [reflexivity|]. unfold snap_of; cbn [o_prot o_unprot o_payload o_recips fresh]. reflexivity.
 Qed.
 
 Theorem consume_refines_enc0 p data ext :
   view_out (enc0_consume false (pr_enc p) data ext) (decode_then_consume KEnc0 p data ext).
 Proof.
-  unfold enc0_consume, decode_then_consume, decode_step.
+  unfold enc0_consume, decode_then_consume, decode_step. cbn [has_recips is_enc].
   destruct (unmarshal_wire KEnc0 data) as [w| |]; cbn [bind view_out snd]; try reflexivity.
   destruct (headers_from_bytes (w_prot w)) as [prot| |]; cbn [bind view_out snd]; try reflexivity.
-  unfold consume_step. cbn [o_mm o_prot o_unprot omap pr_key].
+  unfold consume_step. cbn [o_mm o_prot o_unprot omap pr_key is_enc].
   destruct (w_auth w) as [ct|]; cbn [view_out snd]; [|reflexivity].
   destruct (consume_gate prot (en_key (pr_enc p))); cbn [negb view_out snd]; [|reflexivity].
   destruct (structure KEnc0 (w_prot w) None ext None) as [aad| |]; cbn [bind view_out snd res_out]; try reflexivity.
@@ -393,4 +444,20 @@ Proof.
   destruct (derive_nonce (omap (w_unprot w)) (en_key (pr_enc p)) (en_nonce (pr_enc p))) as [nonce| |]; cbn [bind view_out snd res_out]; try reflexivity.
   destruct (en_decrypt (pr_enc p) nonce ct aad) as [pt| |]; cbn [bind view_out snd res_out]; try reflexivity.
   unfold payload_ok. destruct pt as [|b r]; cbn [bind view_out fst snd]; (split; [reflexivity|]); unfold snap_of; reflexivity.
+Qed.
+
+Theorem consume_refines_enc p data ext :
+  view_out_r (enc_consume false (pr_enc p) data ext) (decode_then_consume KEnc p data ext).
+Proof.
+  unfold enc_consume, decode_then_consume, decode_step. cbn [has_recips is_enc].
+  destruct (unmarshal_wire KEnc data) as [w| |]; cbn [bind view_out_r snd]; try reflexivity.
+  destruct (recips_decode (w_extra w)) as [rs| |]; cbn [bind view_out_r snd]; try reflexivity.
+  destruct (headers_from_bytes (w_prot w)) as [prot| |]; cbn [bind view_out_r snd]; try reflexivity.
+  unfold consume_step. cbn [o_mm o_prot o_unprot omap pr_key is_enc].
+  destruct (w_auth w) as [ct|]; cbn [view_out_r snd]; [|reflexivity].
+  destruct (consume_gate prot (en_key (pr_enc p))); cbn [negb view_out_r snd]; [|reflexivity].
+  destruct (structure KEnc (w_prot w) None ext None) as [aad| |]; cbn [bind view_out_r snd res_out]; try reflexivity.
+  destruct (derive_nonce (omap (w_unprot w)) (en_key (pr_enc p)) (en_nonce (pr_enc p))) as [nonce| |]; cbn [bind view_out_r snd res_out]; try reflexivity.
+  destruct (en_decrypt (pr_enc p) nonce ct aad) as [pt| |]; cbn [bind view_out_r snd res_out]; try reflexivity.
+  unfold payload_ok. destruct pt as [|b r]; cbn [bind view_out_r fst snd]; (split; [reflexivity|]); unfold snap_of; reflexivity.
 Qed.
